@@ -13,6 +13,9 @@ package doapprove
 //vc:  requires[C12] !lockHeld && !lockClosed
 //vc:  ensures[C12] @lockKeptUntilExit lockHeld ==> lockClosed
 //vc:  requires[C13] InvAll(statusFile, hasOK, tOK, pOK, hasCmp, tCmp, pCmp, chg, now)
+// C13: a difference found by the compare (a line "comp: ***..." anywhere in the run log) reaches the status file as DIFF
+//vc:  invariant[C13] 1 "for _, line := range lines" @diffLineRemembered forall i int :: { lines[i] } 0 <= i && i <= rangeindex && strings.HasPrefix(lines[i], "comp: ***") ==> changed
+//vc:  assert[C13] at "status.SetCompare(" @everyDiffLineOfTheLogCounts forall i int :: { splitPart(bytes(data), "\n", i) } 0 <= i && i < splitCount(bytes(data), "\n") && strings.HasPrefix(splitPart(bytes(data), "\n", i), "comp: ***") ==> arg3
 //vc:  assert[C09] at "status.SetApprove(" @failedRecordedIffStatusNonzero arg3 == (stat != 0)
 //vc:  assert[C09] at "status.SetCompare(" @diffRecordedIfStatusNonzero stat != 0 ==> arg3
 //vc:  assert[C09] at "END:" @historyEndTruthful (okMsg == "FAILED") == (stat != 0) && (okMsg == "OK" || okMsg == "FAILED")
